@@ -1,6 +1,8 @@
 /-
 C14 — negation witnesses: concrete inputs on which the *full-strength* statement is false of the
 model (and, replayed by the harness, of the implementation).  Each is listed in known_findings.txt.
+Witnesses of repaired findings (`fixed:` lines) are kept as regression theorems stating the now-correct
+behaviour on the same input.
 -/
 import WpModel.Model.PdfBoxes
 import WpModel.Model.PageSelectors
@@ -23,12 +25,37 @@ theorem media_box_mirrored :
       ⟨scaleOf 1 * (-0), scaleOf 1 * (200 - (200 + 4)), scaleOf 1 * (100 + 0), scaleOf 1 * (200 - (-40))⟩ := by
   decide +kernel
 
-/-- `@page :nth(2n+) { … }`: `tinycss2.nth.parse_nth` raises `AttributeError` on the trailing sign
-(tinycss2 1.5.1) and `parse_page_selectors` lets it through: the exception aborts the whole
-rendering instead of the rule being ignored like any other unsupported page selector. -/
-theorem nth_oracle_exception_propagates :
-    (match parsePageSelectors [.literal ":", .func "nth" [.other, .other] [.none, .none, .raised]] with
-     | .raised => true
+/-- Regression case of the repaired finding `page-nth-trailing-sign-crash` (9ef10c8): on `@page :nth(2n+) { … }`
+`tinycss2.nth.parse_nth` raises `AttributeError` on the trailing sign (tinycss2 1.5.1);
+`parse_page_selectors` now catches `AttributeError` / `ValueError` and returns `None`, so the rule is ignored
+like any other unsupported page selector (before the repair the result was `.raised`: the exception aborted
+the whole rendering).  The general statement is `C14.parse_raises_only_uncaught`. -/
+theorem nth_oracle_exception_ignored :
+    (match parsePageSelectors [.literal ":", .func "nth" [.other, .other]
+        [.none, .none, .raised "AttributeError"]] with
+     | .reject => true
+     | _ => false) = true ∧
+    (match parsePageSelectors [.literal ":", .func "nth" [.other, .other, .ws, .ident "of", .ws, .ident "a"]
+        [.none, .none, .raised "AttributeError", .raised "AttributeError", .none, .none, .none]] with
+     | .reject => true
+     | _ => false) = true ∧
+    (match parsePageSelectors [.literal ":", .func "nth" [.other] [.none, .raised "ValueError"]] with
+     | .reject => true
+     | _ => false) = true := by decide
+
+/-- `@page :nth(+) { … }` (finding `page-nth-lone-plus-crash`): after a lone `+` `tinycss2.nth.parse_nth` runs
+`next()` on the exhausted token iterator and raises `StopIteration`; repair 9ef10c8 catches only
+`AttributeError` and `ValueError`, so this exception still leaves `parse_page_selectors` (and, raised inside the
+`find_stylesheets` generator, aborts the rendering as `RuntimeError: generator raised StopIteration`).  The
+full-strength statement "`parse_page_selectors` never raises" is therefore still false; the true statement is
+`C14.parse_raises_only_uncaught`. -/
+theorem nth_lone_plus_exception_propagates :
+    (match parsePageSelectors [.literal ":", .func "nth" [.other] [.none, .raised "StopIteration"]] with
+     | .raised "StopIteration" => true
+     | _ => false) = true ∧
+    (match parsePageSelectors [.literal ":", .func "nth" [.other, .ws, .ident "of", .ws, .ident "a"]
+        [.none, .raised "StopIteration", .none, .none, .none, .none]] with
+     | .raised "StopIteration" => true
      | _ => false) = true := by decide
 
 /-- `@top-left` and `@top-right` with unbreakable content of min-content width 80 each on a side of
